@@ -17,7 +17,7 @@ def tla(v):
     raise TypeError(v)
 
 PCS_CONSTS = ["Tree", "Scheme", "Mode", "MaxDegs", "Nvs", "SupSet", "HidSet", "BoundSeqs", "NoBoundsToo",
-              "ClsSet", "MaxPolys", "OpKinds", "QsShapes", "LcShapes", "MaxOps", "Emit", "Excused"]
+              "ClsSet", "WfSet", "MaxPolys", "OpKinds", "QsShapes", "LcShapes", "MaxOps", "Emit", "Excused"]
 
 def write_model(outdir, name, consts, invariants, module="PCSession", extra_cfg=""):
     os.makedirs(outdir, exist_ok=True)
